@@ -193,6 +193,17 @@ SCALES = {"tb": (1000, 10 ** 6, 10 ** 8, 33_333_333, 1), "lb": (1000, 10 ** 6, 1
           "ad": (10 ** 7, 10 ** 8, 33_333_333, 5 * 10 ** 7)}
 
 
+def canon(g):
+    """Renumber a TLC state graph canonically (TLC's node ids and dump order vary from run to run), so
+    that the transition tour and its seeded sampling depend on the seed only."""
+    key = {i: repr(sorted(st.items())) for i, st in g.nodes.items()}
+    order = sorted(g.nodes, key=lambda i: key[i])
+    idx = {old: n for n, old in enumerate(order)}
+    nodes = {idx[i]: g.nodes[i] for i in g.nodes}
+    edges = {idx[a]: sorted(((lab, idx[b]) for lab, b in outs if b in idx)) for a, outs in g.edges.items() if a in idx}
+    return tlc.Graph(nodes, edges, sorted(idx[i] for i in g.inits if i in idx))
+
+
 def _steps_from_states(states):
     """[(op, tick, model result)] from consecutive Limiters.tla states."""
     steps = []
@@ -233,15 +244,16 @@ def ptour_submit(tier):
 
 def ptour_collect(chk, tier, rng, add_policy_trace, futs):
     cap = 700 if tier == "quick" else 12000
-    total_paths = total_edges = 0
+    total_paths = total_edges = tour_total = 0
     matched = compared = 0
     all_done = True
     for (i, pol, consts, c), res, dot in (f.result() for f in futs):
         chk.add_tlc(f"Limiters tour graph {pol} #{i}", res, count=False, note="state graph for the transition tour")
-        g = tlc.parse_dot(dot)
+        g = canon(tlc.parse_dot(dot))
         dot.unlink(missing_ok=True)
         total_edges += g.n_edges()
         paths = list(tlc.edge_tour(g))
+        tour_total += len(paths)
         if len(paths) > cap:
             all_done = False
             paths = rng.sample(paths, cap)
@@ -256,6 +268,7 @@ def ptour_collect(chk, tier, rng, add_policy_trace, futs):
             chk.replays += 1
         total_paths += len(paths)
     chk.extra["policy_tour_edges"] = total_edges
+    chk.extra["policy_tour_paths_total"] = tour_total
     chk.extra["policy_tour_paths_replayed"] = total_paths
     chk.extra["policy_tour_decisions_compared"] = compared
     chk.extra["policy_tour_decisions_equal"] = matched
@@ -312,7 +325,7 @@ def etour_collect(chk, tier, rng, add_entity_run, futs):
     all_done = True
     for (i, consts, c), res, dot in (f.result() for f in futs):
         chk.add_tlc(f"Limited tour graph #{i} Dev={dev}", res, count=False, note="state graph for the transition tour")
-        g = tlc.parse_dot(dot)
+        g = canon(tlc.parse_dot(dot))
         dot.unlink(missing_ok=True)
         paths = list(tlc.edge_tour(g))
         if len(paths) > cap:
@@ -551,7 +564,13 @@ def run(tier, seed, replay=None):
         ex1 = ptour_collect(chk, tier, rng, add_policy_trace, f_pt)
         replay_counterexamples(chk, cex, add_policy_trace)
         ex2 = etour_collect(chk, tier, rng, add_entity_run, f_et)
-    chk.exhaustive = bool(ex1 and ex2)
+    # exhaustive = TLC explored the complete state space of every listed bounded configuration;
+    # whether every tour path was also replayed on the code is reported separately
+    chk.exhaustive = "mc" in phases
+    chk.extra["tours_complete"] = bool(ex1 and ex2)
+    chk.extra["exhaustive_configurations"] = (
+        [dict(name=n, module="Limiters", constants=pconsts(pol, **kw)[1] | {"Policy": pol}) for n, pol, kw in policy_configs(tier)]
+        + [dict(name=n, module="Limited", constants=econsts(**kw)[1]) for n, kw in entity_configs(tier)])
     lap("spec_to_code")
 
     # 3. code -> spec
@@ -592,6 +611,9 @@ def run(tier, seed, replay=None):
         by[tr["pol"]] = by.get(tr["pol"], 0) + 1
     chk.extra["policy_executions_by_kind"] = by
     chk.extra["entity_executions"] = len(etraces)
+    import hashlib
+    chk.extra["executions_digest"] = hashlib.sha1(
+        json.dumps([ptraces, etraces], separators=(",", ":"), sort_keys=True).encode()).hexdigest()
     chk.extra["as_code_deviations"] = known_dev
     for tr in (ptraces[:1] + ptraces[-1:]):
         chk.sample({"policy_trace": {k: tr[k] for k in ("pol", "P", "cc", "W", "N", "ops")}, "meta": pmeta[tr["id"]].get("origin")})
